@@ -403,6 +403,14 @@ func opSelect(g *gspec, bound int64) result {
 	return res
 }
 
+// the same selection with the platform check bypassed (--all-platforms / all_platforms = true)
+func opSelectAllPlatforms(g *gspec, bound int64) result {
+	prev := config.Global.AllPlatforms
+	config.Global.AllPlatforms = true
+	defer func() { config.Global.AllPlatforms = prev }()
+	return opSelect(g, bound)
+}
+
 func opDescendants(g *gspec, bound int64) result {
 	var acc result
 	for _, i := range startNodes(g, true) {
@@ -655,6 +663,7 @@ func opWalk(g *gspec, bound int64) result {
 
 var operations = []operation{
 	{"SelectTargetsForBuild", opSelect},
+	{"SelectTargetsForBuild --all-platforms", opSelectAllPlatforms},
 	{"GetDescendants", opDescendants},
 	{"GetAncestors", opAncestors},
 	{"failure-propagation", opWalk},
